@@ -716,6 +716,17 @@ fn sub_cases(_tier: Tier) -> Vec<SubCase> {
             v.push(SubCase { unsubscribe: false, filters: (0..n).map(|i| (1 + 2 * i, (i * 7) as u8)).collect(), props, tx: 256 });
         }
     }
+    // many filters in one request (the remaining length crosses 127 and 16383 by count, not by one long filter); the
+    // same filter twice
+    for n in [4usize, 7, 8, 9, 15, 16, 17, 24, 31, 32, 33, 40, 64, 200, 255, 256, 257, 2000] {
+        for props in [0usize, 9] {
+            v.push(SubCase { unsubscribe: true, filters: (0..n).map(|i| (1 + i % 5, 0)).collect(), props, tx: 20_000 });
+            v.push(SubCase { unsubscribe: false, filters: (0..n).map(|i| (1 + i % 5, (i % 36) as u8)).collect(), props, tx: 20_000 });
+        }
+    }
+    v.push(SubCase { unsubscribe: false, filters: vec![(3, 1), (3, 1)], props: 0, tx: 256 });
+    v.push(SubCase { unsubscribe: false, filters: vec![(3, 1), (3, 20)], props: 0, tx: 256 });
+    v.push(SubCase { unsubscribe: true, filters: vec![(3, 0), (3, 0)], props: 0, tx: 256 });
     for len in [0usize, 1, 127, 128, 65535, 65536] {
         v.push(SubCase { unsubscribe: false, filters: vec![(len, 1)], props: 0, tx: 70_000 });
         v.push(SubCase { unsubscribe: true, filters: vec![(len, 0)], props: 0, tx: 70_000 });
